@@ -133,6 +133,55 @@ func TestC06Order(t *testing.T) {
 			d := g.DirRef(t)
 			judge(t, x.Lookup(d, pick(t, []string{".", ".."}, "dot")))
 		})
+		// a file whose background free was interrupted (stop with the shrinker at work, new server): the next
+		// requests on that very file find it still shrinking and must finish the job themselves - and return
+		ninterrupted := 0
+		acts["touch_half_freed"] = func(t *rapid.T) {
+			if cut || ninterrupted >= 1 || x.Budget < 900 {
+				t.Skip("once per case")
+			}
+			ninterrupted++
+			root := LiveRef(x.M.Root)
+			name := g.NewName(t, x.M.Root)
+			judge(t, x.Create(root, name))
+			f := x.M.Root.Children[name]
+			if cut || f == nil {
+				return
+			}
+			for i := uint64(0); i < 3 && !cut; i++ {
+				judge(t, x.Write(LiveRef(f), i*300*BlockSize, patternData(g.nextTag(), 300*BlockSize), 300*BlockSize, nt.FILE_SYNC))
+			}
+			if cut {
+				return
+			}
+			sz := uint64(pick(t, []int{0, 1, 4096, 9 * 4096}, "cutto"))
+			judge(t, x.Setattr(LiveRef(f), &sz, false))
+			if cut {
+				return
+			}
+			judge(t, crashRestart(x))
+			if cut {
+				return
+			}
+			St.Class("requests_on_a_file_whose_background_free_was_interrupted")
+			m := x.S.Mon()
+			begun := m.Begun
+			switch rapid.IntRange(0, 2).Draw(t, "touch") {
+			case 0:
+				judge(t, x.Write(LiveRef(f), 0, patternData(g.nextTag(), 5000), 5000, nt.FILE_SYNC))
+			case 1:
+				nsz := uint64(pick(t, []int{0, 100, 20 * 4096}, "newsize"))
+				judge(t, x.Setattr(LiveRef(f), &nsz, false))
+			default:
+				judge(t, x.Read(LiveRef(f), 0, 4096))
+			}
+			if cut {
+				return
+			}
+			if n := x.S.Mon().Begun - begun; n > 40 && x.S.Mon() == m {
+				fail("one request on a file whose free had been interrupted began %d transactions (retrying without end?)", n)
+			}
+		}
 		// RENAME with its four inode roles drawn from a small pool: all coincidence patterns
 		acts["renamepool"] = wrap(func(t *rapid.T) {
 			dirs := x.M.LiveKind(nt.NF3DIR)
